@@ -247,6 +247,8 @@ class Interp:
             return self.call_real(f.fn, (f.obj,) + tuple(args), kwargs, owner=f.owner)
         if isinstance(f, NoOp):
             return None
+        if getattr(f, "_pyvc_callable", False):
+            return f(*args, **kwargs)
         ent = MODELS.get(id(f))
         if ent is not None and ent[0] is f:
             return ent[1](self, *args, **kwargs)
@@ -1472,20 +1474,25 @@ class MapLoop(LoopSpec):
     def run_for(self, interp, s, fr, it):
         c = ctx()
         tnames = {n.id for n in ast.walk(s.target) if isinstance(n, ast.Name)}
-        car = loop_carried(s.body, tnames)
-        if car:
-            raise Unsupported(f"map loop rule refused: loop-carried locals {sorted(car)} at {fr.fn_name}:{s.lineno}")
+        # locals assigned in the body are poisoned at the start of the (arbitrary) iteration: a read
+        # before the iteration's own assignment is a loop-carried dependency -> Unsupported
+        for n in assigned_names(s.body) - tnames:
+            fr.locals[n] = Havoc(n)
         if s.orelse:
             raise Unsupported("for-else under the map rule")
         if isinstance(it, SRange):
             if it.step != 1:
                 raise Unsupported("map rule over a stepped symbolic range")
+            if not interp.truth(it.stop > it.start):
+                return      # empty range: no iteration
             v = c.int("i_" + "_".join(sorted(tnames)))
             c.assume(core.And(v >= it.start, v < it.stop))
             c.loop_vars.append((ast.unparse(s.target), v, it.start, it.stop))
             nvars = 1
             interp.assign(s.target, v, fr)
         elif isinstance(it, SNdIndex):
+            if not interp.truth(core.And(*[d > 0 for d in it.dims])):
+                return
             vs = []
             for k, d in enumerate(it.dims):
                 v = c.int(f"nd{k}_" + "_".join(sorted(tnames)))
